@@ -16,6 +16,9 @@ def operands(tier):
            ("concat", [a, O("AnyDigit()")]), L("a|b"), L("a?"), L("a$"), L("["), L("\\"), O("Any()"), O("WordBoundary()"),
            ("nfb", a, [b]), ("npb", a, [b]), L(""), ("pre", ""), ("exactly", a, 0), ("exactly", L("ab"), 2),
            ("between", a, 1, 2, False), ("opt", ("either", [a, L("")]), True), ("either", [("opt", a, True), b]),
+           # concatenated groups whose classes hold unbalanced parentheses (must be repeated as a whole, not the last group only)
+           ("concat", [("capture", ("concat", [L("f"), O("AnyFrom('(', '<')")]), None), ("capture", ("concat", [L("x"), O("AnyFrom(')', '>')")]), None)]),
+           ("concat", [("group", O("AnyFrom('(', '<')"), False), ("group", O("AnyFrom(')', '>')"), False)]),
            # non-repeatable operands (documented CannotBeRepeatedException for bounds above one)
            ("mas", a), ("male", a), ("fb", a, [b]), ("pb", a, [b]), ("eb", a, [b])]
     if tier == "thorough":
